@@ -634,4 +634,14 @@ example :
     (kHandleCommand genAll (e0 C15.chainOracle) 1 (St.init 0) (.focus 1)).map (fun s => (s.focused, s.stuck)) = some (1, true) := by
   decide +kernel
 
+/-- **Hover under failing handlers, for the loop with no model function inside**: whatever calls fail, `kRun` ends in a state whose
+    trace has alternating MouseEnter / MouseLeave notifications per widget, and if it returns no error the entered widgets are
+    exactly those of the hit list (`C15Err.hover_after_error` transported along `run_knot_eq_model`). -/
+theorem hover_after_error_bodies (e : EOracle) (fuel : Nat) (root : Id) (t0 : STree) (steps : List Step)
+    (h0 : HitsNodup t0) (hs : ∀ st ∈ steps, StepOk st) :
+    ∃ s' b, kRun genAll e fuel root t0 steps = some (s', b) ∧ (hoverRun [] s'.trace).isSome = true ∧
+      (b = false → ∃ ent, hoverRun [] s'.trace = some ent ∧ ∀ w, w ∈ ent ↔ w ∈ s'.lastHits.map Hit.w) := by
+  obtain ⟨h1, h2⟩ := C15Err.hover_after_error e (fuel + 1) root t0 steps h0 hs
+  exact ⟨_, _, run_knot_eq_model e fuel root t0 steps, h1, h2⟩
+
 end VaxisModel.Props.C15Body
